@@ -645,6 +645,7 @@ func (e *Exec) primitive(st *State, fr *Frame, fn *ssa.Function, args []Value, p
 		fam := e.wrFamily(args[0])
 		e.ghSet(st, fam+".len", BV(64), wref, BVConst(0, 64))
 		e.ghSet(st, fam+".limit", BV(64), wref, BVConst(1<<62, 64))
+		e.ghSet(st, "wr.reliable", SBool, wref, True) // ("accepts everything": no transient failures either)
 		return one(st), true
 	case "prim_feed": // prim_feed(r, b): the unread input of r is exactly the bytes of b, then the terminal error
 		rref := streamRef(args[0])
